@@ -17,8 +17,18 @@
 // (scalars, shorter/longer lists, dicts with disjoint/overlapping/superset/subset/same key sets, a deep
 // tree, a polluted same-shape tree, a copy of the previous tree); dst must equal the source afterwards.
 //
-// Violation keys: <check>:<shape of the smallest failing subtree>:<default|strict>  (no numbers).
+// Size families (run_sizes): container breadth, total node count, string / key length, total text length and nesting
+// depth are laddered over 2^k-1, 2^k, 2^k+1, 3*2^(k-1): flat lists and dicts, dicts with long shared key prefixes, tables,
+// a wide container at depth d of a chain, a chain at index i of a wide list, long strings / keys in five content styles,
+// documents whose text is exactly 2^k-1 / 2^k / 2^k+1 bytes long, chains of 1..500 levels, random trees with log-uniform
+// fan-out.  Heavy documents run a rotating subset of the masks (one standard mask + at least two others).
+//
+// Violation keys: <check>:<shape of the smallest failing subtree>:<default|strict>  (no numbers).  The shape carries
+// ":wide" / ":long" / ":deep" when the smallest failing container prefix has more than 64 children, the smallest failing
+// string / key prefix more than 64 bytes, the smallest failing chain tail more than 64 levels - i.e. when the failure
+// depends on breadth, length or depth rather than on a particular value.
 #include <math.h>
+#include <time.h>
 
 #include <functional>
 #include <set>
@@ -187,7 +197,10 @@ static string shape(const Node& n) {
   }
 }
 
+static size_t g_cover_budget = 0;  // large documents: classes from the first few thousand nodes are enough
 static void cover_leaves(const Node& n, int depth) {
+  if (g_cover_budget == 0) return;
+  g_cover_budget--;
   if (n.k == Node::L || n.k == Node::D) {
     C->cls("gen:" + shape(n) + (depth == 0 ? ":root" : ":nested"));
     if (n.k == Node::D)
@@ -207,10 +220,23 @@ static string sig6(double f) {
 }
 
 // returns "" or "<check>" ; fills where with a human-readable path
-static string walk_cmp(const Node& n, const JSON& j, string& where, const string& path) {
+// the path is rendered only when something differs (wide containers: no per-element string work)
+struct PathRef {
+  const PathRef* up;
+  const Node* parent;
+  size_t index;
+};
+static string render_path(const PathRef* p) {
+  if (!p) return "$";
+  string head = render_path(p->up);
+  if (p->parent->k == Node::D) return head + "{" + vf::hex(p->parent->keys[p->index].substr(0, 64)) + (p->parent->keys[p->index].size() > 64 ? "..." : "") + "}";
+  return head + fmt("[%zu]", p->index);
+}
+
+static string walk_cmp(const Node& n, const JSON& j, string& where, const PathRef* path = nullptr) {
   PE();
   auto bad = [&](const char* chk, const string& detail) {
-    where = path + ": " + detail;
+    where = render_path(path) + ": " + detail;
     return string(chk);
   };
   switch (n.k) {
@@ -243,7 +269,8 @@ static string walk_cmp(const Node& n, const JSON& j, string& where, const string
       if (!j.is_list()) return bad("kind-differs", "expected list");
       if (j.size() != n.kids.size()) return bad("value-differs", fmt("list size %zu came back as %zu", n.kids.size(), j.size()));
       for (size_t i = 0; i < n.kids.size(); i++) {
-        string r = walk_cmp(n.kids[i], j.at(i), where, path + fmt("[%zu]", i));
+        PathRef here{path, &n, i};
+        string r = walk_cmp(n.kids[i], j.at(i), where, &here);
         if (!r.empty()) return r;
       }
       return "";
@@ -253,7 +280,8 @@ static string walk_cmp(const Node& n, const JSON& j, string& where, const string
       if (j.size() != n.kids.size()) return bad("value-differs", fmt("dict size %zu came back as %zu", n.kids.size(), j.size()));
       for (size_t i = 0; i < n.kids.size(); i++) {
         if (!j.contains(n.keys[i])) return bad("value-differs", "key " + vf::hex(n.keys[i]) + " missing");
-        string r = walk_cmp(n.kids[i], j.at(n.keys[i]), where, path + "{" + vf::hex(n.keys[i]) + "}");
+        PathRef here{path, &n, i};
+        string r = walk_cmp(n.kids[i], j.at(n.keys[i]), where, &here);
         if (!r.empty()) return r;
       }
       return "";
@@ -282,7 +310,7 @@ static Outcome run_one(const Node& n, const JSON& v, uint32_t o, bool strict, bo
     return out;
   }
   string where;
-  string r = walk_cmp(n, p, where, "$");
+  string r = walk_cmp(n, p, where);
   if (!r.empty()) {
     out.check = r;
     out.detail = where;
@@ -322,26 +350,139 @@ static Outcome run_one(const Node& n, const JSON& v, uint32_t o, bool strict, bo
   return out;
 }
 
-// smallest subtree that fails the same way on its own
-static const Node* blame(const Node& n, uint32_t o, bool strict, string& keyshape) {
+// smallest subtree that fails the same way on its own.  Wide containers (> 64 children) and long strings / keys
+// (> 64 bytes) are first shrunk to their shortest failing prefix by bisection (prefix(lo) passes, prefix(hi) fails);
+// when that prefix is still wide / long the failure depends on breadth or length and the key says so (":wide", ":long").
+static const size_t kWide = 64;
+
+static Node truncated(const Node& n, size_t m) {
+  Node t;
+  t.k = n.k;
+  t.kids.assign(n.kids.begin(), n.kids.begin() + m);
+  if (n.k == Node::D) t.keys.assign(n.keys.begin(), n.keys.begin() + m);
+  return t;
+}
+
+static bool fails_alone(const Node& n, uint32_t o, bool strict) {
+  JSON v = build(n);
+  return !run_one(n, v, o, strict, has_float(n)).check.empty();
+}
+
+static const Node* g_hint_node = nullptr;  // last wide container shrunk by blame() and its shortest failing prefix
+static size_t g_hint_m = 0;
+
+static Node blame(const Node& n, uint32_t o, bool strict, string& keyshape, string& note) {
+  if (n.k == Node::S && n.s.size() > kWide) {
+    size_t lo = 0, hi = n.s.size();
+    if (fails_alone(mk_str(""), o, strict)) hi = 0;
+    while (hi - lo > 1) {
+      size_t mid = lo + (hi - lo) / 2;
+      if (fails_alone(mk_str(n.s.substr(0, mid)), o, strict)) hi = mid;
+      else lo = mid;
+    }
+    Node t = mk_str(n.s.substr(0, hi));
+    keyshape = shape(t) + (hi > kWide ? ":long" : "");
+    note += fmt(" [string of %zu bytes: shortest failing prefix has %zu bytes]", n.s.size(), hi);
+    return t;
+  }
+  if ((n.k == Node::L || n.k == Node::D) && n.kids.size() > kWide) {
+    size_t lo = 0, hi = n.kids.size();
+    // the same document usually fails the same way under the next mask / parser mode: try the previous answer first
+    if (g_hint_node == &n && g_hint_m >= 1 && g_hint_m <= hi && fails_alone(truncated(n, g_hint_m), o, strict) &&
+        !fails_alone(truncated(n, g_hint_m - 1), o, strict)) {
+      hi = g_hint_m;
+      lo = hi - 1;
+    } else if (fails_alone(truncated(n, 0), o, strict))
+      hi = 0;
+    while (hi - lo > 1) {
+      size_t mid = lo + (hi - lo) / 2;
+      if (fails_alone(truncated(n, mid), o, strict)) hi = mid;
+      else lo = mid;
+    }
+    g_hint_node = &n;
+    g_hint_m = hi;
+    note += fmt(" [%s of %zu children: shortest failing prefix has %zu children]", n.k == Node::L ? "list" : "dict", n.kids.size(), hi);
+    if (hi == 0) {
+      keyshape = shape(truncated(n, 0));
+      return truncated(n, 0);
+    }
+    if (hi <= kWide) return blame(truncated(n, hi), o, strict, keyshape, note);
+    // still wide: is it the last child (or its key) on its own?
+    if (fails_alone(n.kids[hi - 1], o, strict)) return blame(n.kids[hi - 1], o, strict, keyshape, note);
+    if (n.k == Node::D) {
+      Node d = mk_dict();
+      dput(d, n.keys[hi - 1], mk_null());
+      if (fails_alone(d, o, strict)) return blame(d, o, strict, keyshape, note);
+    }
+    keyshape = shape(n) + ":wide";
+    return truncated(n, hi);
+  }
+  if (n.kids.size() == 1) {
+    // a chain: bisect on the level instead of re-testing every tail (tail(lo) fails, tail(hi) passes)
+    vector<const Node*> spine;
+    const Node* c = &n;
+    while (c->kids.size() == 1) {
+      spine.push_back(c);
+      c = &c->kids[0];
+    }
+    if (spine.size() > kWide) {
+      if (fails_alone(*c, o, strict)) return blame(*c, o, strict, keyshape, note);
+      size_t lo = 0, hi = spine.size();
+      while (hi - lo > 1) {
+        size_t mid = lo + (hi - lo) / 2;
+        if (fails_alone(*spine[mid], o, strict)) lo = mid;
+        else hi = mid;
+      }
+      const Node& s = *spine[lo];
+      size_t levels = spine.size() - lo;
+      note += fmt(" [chain of %zu levels: shortest failing tail has %zu levels]", spine.size(), levels);
+      if (levels <= kWide) return blame(s, o, strict, keyshape, note);
+      if (s.k == Node::D) {
+        Node d = mk_dict();
+        dput(d, s.keys[0], mk_null());
+        if (fails_alone(d, o, strict)) return blame(d, o, strict, keyshape, note);
+      }
+      keyshape = shape(s) + ":deep";
+      return s;
+    }
+  }
   for (size_t i = 0; i < n.kids.size(); i++) {
     const Node& k = n.kids[i];
-    JSON kv = build(k);
-    if (!run_one(k, kv, o, strict, has_float(k)).check.empty()) return blame(k, o, strict, keyshape);
+    if (fails_alone(k, o, strict)) return blame(k, o, strict, keyshape, note);
   }
   if (n.k == Node::D) {
     for (auto& key : n.keys) {
       Node d = mk_dict();
       dput(d, key, mk_null());
-      JSON dv = build(d);
-      if (!run_one(d, dv, o, strict, false).check.empty()) {
-        keyshape = "key:" + str_class(key);
-        return &n;
+      if (fails_alone(d, o, strict)) {
+        string cls = str_class(key);
+        if (key.size() > kWide) {
+          // shortest failing key prefix
+          size_t lo = 0, hi = key.size();
+          auto kf = [&](size_t m) {
+            Node x = mk_dict();
+            dput(x, key.substr(0, m), mk_null());
+            return fails_alone(x, o, strict);
+          };
+          if (kf(0)) hi = 0;
+          while (hi - lo > 1) {
+            size_t mid = lo + (hi - lo) / 2;
+            if (kf(mid)) hi = mid;
+            else lo = mid;
+          }
+          note += fmt(" [key of %zu bytes: shortest failing prefix has %zu bytes]", key.size(), hi);
+          Node x = mk_dict();
+          dput(x, key.substr(0, hi), mk_null());
+          keyshape = "key:" + str_class(key.substr(0, hi)) + (hi > kWide ? ":long" : "");
+          return x;
+        }
+        keyshape = "key:" + cls;
+        return d;
       }
     }
   }
   keyshape = shape(n);
-  return &n;
+  return n;
 }
 
 static string opt_names(uint32_t o) {
@@ -436,9 +577,9 @@ static void copy_monitor(const Node& n, const JSON& v, vf::Rng& r, const string&
   PE();
   if (!(pristine == v) || !(assigned == v) || (pristine != v))
     C->violation("copy:not-equal-to-source:" + kind, "JSON(v) == v is false", desc);
-  string w1 = walk_cmp(n, pristine, where, "$");
+  string w1 = walk_cmp(n, pristine, where);
   if (!w1.empty()) C->violation("copy:differs-from-source:" + kind, "copy does not hold the source's value: " + where, desc);
-  string w2 = walk_cmp(n, assigned, where, "$");
+  string w2 = walk_cmp(n, assigned, where);
   if (!w2.empty()) C->violation("copy:differs-from-source:" + kind, "assigned copy does not hold the source's value: " + where, desc);
   if ((n.k == Node::L || n.k == Node::D) && !n.kids.empty()) {
     if (aliases(v, pristine) || aliases(v, assigned) || aliases(pristine, assigned))
@@ -452,7 +593,7 @@ static void copy_monitor(const Node& n, const JSON& v, vf::Rng& r, const string&
   PE();
   if (!(pristine == v)) C->violation("copy:source-changed:" + kind, "mutating a copy changed the source (compared with a second pristine copy)", desc + " mutated at " + m);
   if (ser(v, JSON::SORT_DICT_KEYS) != before) C->violation("copy:source-changed:" + kind, "mutating a copy changed the source's serialisation", desc + " mutated at " + m);
-  string w3 = walk_cmp(n, v, where, "$");
+  string w3 = walk_cmp(n, v, where);
   if (!w3.empty()) C->violation("copy:source-changed:" + kind, "source no longer holds the generated value: " + where, desc + " mutated at " + m);
   // self-consistency of the move path used everywhere above
   PE();
@@ -574,7 +715,7 @@ static void check_assigned(const char* op, const string& kind, const Node& n, co
     vf::Rng& r, const string& desc, bool mutate_too) {
   string pre = string(op) + ":onto-" + kind + ":";
   string where;
-  string w = walk_cmp(n, dst, where, "$");
+  string w = walk_cmp(n, dst, where);
   if (!w.empty()) C->violation(pre + "differs", string("after ") + op + " the destination does not hold the source's value (" + w + "): " + where, desc);
   string sd = ser(dst, JSON::SORT_DICT_KEYS);
   if (sd != sorted_v) {
@@ -592,7 +733,7 @@ static void check_assigned(const char* op, const string& kind, const Node& n, co
     string m = mutate(dst, r);
     PE();
     if (dst == v || v == dst) C->violation(pre + "mutated-still-equal", "after mutating the destination at " + m + " it still compares equal to the source", desc);
-    if (ser(v, JSON::SORT_DICT_KEYS) != sorted_v || !walk_cmp(n, v, where, "$").empty())
+    if (ser(v, JSON::SORT_DICT_KEYS) != sorted_v || !walk_cmp(n, v, where).empty())
       C->violation(pre + "source-changed", "mutating the assigned destination at " + m + " changed the source", desc);
   }
 }
@@ -866,39 +1007,540 @@ static vector<Node> systematic() {
 
 static FILE* dumpf = nullptr;
 
-static void process(uint64_t idx, const Node& n, vf::Rng& r, const char* origin) {
+// Which option masks a tree is run with.  Ordinary trees: all 64.  Large documents (size families): one standard mask
+// (rotating over 0, FORMAT, SORT_DICT_KEYS, FORMAT|SORT_DICT_KEYS; default + strict parser, CPython comparison) plus a
+// rotating selection of the other masks; the number of masks shrinks with the document's weight so that the work per
+// document stays bounded (case counts, never seconds).
+struct Plan {
+  vector<uint32_t> opts;
+  bool assign = true;
+  string family;  // "" for the ordinary trees
+};
+
+static Plan full_plan() {
+  Plan p;
+  for (uint32_t o = 0; o < 64; o++) p.opts.push_back(o);
+  return p;
+}
+
+static Plan sized_plan(uint64_t idx, uint64_t weight, uint64_t w0, int must_opt, const string& family) {
+  Plan p;
+  p.family = family;
+  p.assign = weight <= 4096;
+  if (weight <= w0) {
+    for (uint32_t o = 0; o < 64; o++) p.opts.push_back(o);
+    return p;
+  }
+  size_t k = (size_t)(64 * w0 / weight);
+  if (k < 2) k = 2;
+  static const uint32_t stdm[4] = {0, JSON::FORMAT, JSON::SORT_DICT_KEYS, JSON::FORMAT | JSON::SORT_DICT_KEYS};
+  set<uint32_t> have;
+  auto add = [&](uint32_t o) {
+    if (have.insert(o).second) p.opts.push_back(o);
+  };
+  if (must_opt >= 0) add((uint32_t)must_opt);
+  add(stdm[idx & 3]);
+  for (uint64_t j = 0; p.opts.size() < k + 1 && j < 64; j++) add((uint32_t)(((idx * 5 + j) * 37 + 11) & 63));
+  return p;
+}
+
+static uint64_t g_blame_spent = 0;                    // bytes of tagged text of the large documents shrunk so far
+static const uint64_t kBlameBudget = 4 * 1024 * 1024;  // a case count in disguise: about forty 4097-element lists or four 2^16-element ones
+
+static void process(uint64_t idx, const Node& n, vf::Rng& r, const char* origin, const Plan& plan) {
+  g_hint_node = nullptr;
   JSON v = build(n);
   bool fl = has_float(n);
+  g_cover_budget = 4096;
   cover_leaves(n, 0);
   string tg;
   tagged(n, tg);
   string desc = fmt("tree #%" PRIu64 " (%s, seed %" PRIu64 ") tagged=", idx, origin, C->seed) + (tg.size() > 1500 ? tg.substr(0, 1500) + "..." : tg);
-  if (dumpf) fprintf(dumpf, "T\t%" PRIu64 "\t%s\n", idx, tg.c_str());
-  for (uint32_t o = 0; o < 64; o++) {
+  if (dumpf) {
+    fprintf(dumpf, "T\t%" PRIu64 "\t", idx);
+    fwrite(tg.data(), 1, tg.size(), dumpf);
+    fprintf(dumpf, "\t%s\n", plan.family.c_str());
+  }
+  for (uint32_t o : plan.opts) {
     C->crumb_s(fmt("serialize opts=0x%02x ", o) + desc);
     string t = ser(v, o);
     bool std_o = is_std(o);
-    if (std_o && dumpf) fprintf(dumpf, "X\t%" PRIu64 "\t%u\t%s\n", idx, o, vf::hex(t).c_str());
+    if (std_o && dumpf) {
+      string hx = vf::hex(t);
+      fprintf(dumpf, "X\t%" PRIu64 "\t%u\t", idx, o);
+      fwrite(hx.data(), 1, hx.size(), dumpf);
+      fputc('\n', dumpf);
+    }
     for (int strict = 0; strict <= (std_o ? 1 : 0); strict++) {
       C->evaluations++;
       C->crumb_s(fmt("parse opts=0x%02x strict=%d text=", o, strict) + vf::hex(t.substr(0, 1200)) + " " + desc.substr(0, 1500));
       Outcome oc = run_one(n, v, o, strict, fl, &t);
       C->cls(fmt("opt%02x:%s", o, strict ? "strict" : "default"));
-      if (!oc.check.empty()) {
-        string ks;
-        const Node* b = blame(n, o, strict, ks);
-        string bt;
-        tagged(*b, bt);
-        string btext = ser(build(*b), o);
-        C->violation(oc.check + ":" + ks + ":" + (strict ? "strict" : "default"),
+      if (!oc.check.empty() && tg.size() > 32768 && g_blame_spent > kBlameBudget) {
+        // shrinking a large document costs several more round trips of its size; the work spent on that is bounded per
+        // process.  Further failures of large documents are still reported, under one key per check and parser mode.
+        C->count("large_document_failures_not_shrunk");
+        C->violation(oc.check + ":large-document-not-shrunk:" + (strict ? "strict" : "default"),
             oc.check + " (" + oc.detail + ") with options " + opt_names(o) + (strict ? ", strict parser" : ", default parser"),
-            "smallest failing value " + (bt.size() > 300 ? bt.substr(0, 300) + "..." : bt) + " serialises to hex " + vf::hex(btext.substr(0, 200)) + " = \"" + btext.substr(0, 200) + "\"; in " + desc.substr(0, 600));
+            fmt("text of %zu bytes: ", t.size()) + t.substr(0, 200) + "...; in " + desc.substr(0, 600));
+      } else if (!oc.check.empty()) {
+        if (tg.size() > 32768) g_blame_spent += tg.size();
+        string ks, note;
+        Node b = blame(n, o, strict, ks, note);
+        string bt;
+        tagged(b, bt);
+        string btext = ser(build(b), o);
+        C->violation(oc.check + ":" + ks + ":" + (strict ? "strict" : "default"),
+            oc.check + " (" + oc.detail + ") with options " + opt_names(o) + (strict ? ", strict parser" : ", default parser") + note,
+            fmt("smallest failing value (%zu children, %zu bytes of text) ", b.kids.size(), btext.size()) + (bt.size() > 300 ? bt.substr(0, 300) + "..." : bt) + " serialises to hex " + vf::hex(btext.substr(0, 200)) + " = \"" + btext.substr(0, 200) + "\"; in " + desc.substr(0, 600));
       }
     }
   }
   copy_monitor(n, v, r, desc.substr(0, 900));
-  assign_monitor(n, v, r, desc.substr(0, 600));
+  if (plan.assign) assign_monitor(n, v, r, desc.substr(0, 600));
   if (idx < 3 || (idx % 977) == 0) C->sample(fmt("opts 0..63 x {default,strict-if-standard} on %s", desc.substr(0, 300).c_str()), 8);
+}
+
+// ------------------------------------------------------------------------------------------------
+// size families: container breadth, total node count, string / key length, total text length, nesting depth.
+// The laddered quantity takes the values 2^k-1, 2^k, 2^k+1, 3*2^(k-1), 3*2^(k-1)+1; contents are seeded.
+
+struct SizeCase {
+  string family;   // coverage class / dump tag
+  uint64_t size;   // the laddered quantity (children, bytes, levels)
+  uint64_t est;    // estimated weight, for the deterministic shard balance only
+  int must_opt;    // -1, or an option mask that has to be part of the plan (text-length tuning)
+  std::function<Node(vf::Rng&)> make;
+};
+
+// km: 2^k-1 only up to k == km; dense: also 3*2^(k-1)+1
+static vector<size_t> ladder(int k0, int k1, int km, bool dense) {
+  vector<size_t> v;
+  for (int k = k0; k <= k1; k++) {
+    size_t p = (size_t)1 << k;
+    if (k <= km) v.push_back(p - 1);
+    v.push_back(p);
+    v.push_back(p + 1);
+    if (k < k1) {
+      v.push_back(3 * (p >> 1));
+      if (dense) v.push_back(3 * (p >> 1) + 1);
+    }
+  }
+  return v;
+}
+
+static int log2_floor(uint64_t n) {
+  int k = 0;
+  while (n >>= 1) k++;
+  return k;
+}
+
+static Node hetero_elem(vf::Rng& r) {
+  switch (r.below(16)) {
+    case 0: return mk_null();
+    case 1: return mk_bool(r.chance(1, 2));
+    case 2: case 3: case 4: return mk_int(gen_int(r));
+    case 5: case 6: case 7: return mk_float(gen_float(r));
+    case 8: case 9: case 10: return mk_str(gen_str(r));
+    case 11: return mk_list();
+    case 12: return mk_dict();
+    case 13: {
+      Node l = mk_list();
+      l.kids.push_back(mk_int(gen_int(r)));
+      l.kids.push_back(mk_str(gen_str(r)));
+      return l;
+    }
+    case 14: {
+      Node d = mk_dict();
+      dput(d, "a", mk_float(gen_float(r)));
+      string k = gen_str(r);
+      if (k != "a") dput(d, k, mk_null());
+      return d;
+    }
+    default: {
+      Node l = mk_list();
+      Node d = mk_dict();
+      dput(d, "", mk_list());
+      l.kids.push_back(std::move(d));
+      return l;
+    }
+  }
+}
+
+// style 0: heterogeneous; 1 ints; 2 floats; 3 short strings; 4 empty containers; 5 null/bool
+static Node styled_elem(vf::Rng& r, int style) {
+  switch (style) {
+    case 1: return mk_int(gen_int(r));
+    case 2: return mk_float(gen_float(r));
+    case 3: return mk_str(gen_str(r));
+    case 4: return r.chance(1, 2) ? mk_list() : mk_dict();
+    case 5: return r.chance(1, 2) ? mk_null() : mk_bool(r.chance(1, 2));
+    default: return hetero_elem(r);
+  }
+}
+
+static Node wide_list(vf::Rng& r, size_t n, int style = 0) {
+  Node l = mk_list();
+  l.kids.reserve(n);
+  for (size_t i = 0; i < n; i++) l.kids.push_back(styled_elem(r, style));
+  return l;
+}
+
+static string be_bytes(size_t i, int nbytes) {
+  string s;
+  for (int b = nbytes - 1; b >= 0; b--) s.push_back((char)(i >> (8 * b)));
+  return s;
+}
+
+// unique keys by construction.  0: "k<i>"; 1: random bytes + "#<i>"; 2: raw 3-byte big-endian index (every byte value,
+// NUL, quote, backslash, high); 3: "key-%08zx"
+static string wide_key(vf::Rng& r, size_t i, int keystyle) {
+  switch (keystyle) {
+    case 0: return fmt("k%zu", i);
+    case 1: return gen_str(r) + fmt("#%zu", i);
+    case 2: return be_bytes(i, 3);
+    default: return fmt("key-%08zx", i);
+  }
+}
+
+static Node wide_dict(vf::Rng& r, size_t n, int keystyle, int style = 0) {
+  Node d = mk_dict();
+  d.kids.reserve(n);
+  d.keys.reserve(n);
+  for (size_t i = 0; i < n; i++) dput(d, wide_key(r, i, keystyle), styled_elem(r, style));
+  return d;
+}
+
+// many keys sharing one long prefix (all byte values) and differing only in a short suffix
+static Node prefix_dict(vf::Rng& r, size_t n, size_t plen, int sufstyle) {
+  string prefix = r.bytes(plen);
+  Node d = mk_dict();
+  for (size_t i = 0; i < n; i++) {
+    string suf = sufstyle == 0 ? be_bytes(i, 2) : sufstyle == 1 ? fmt("%zu", i) : be_bytes(i, 2) + prefix.substr(0, 8);
+    dput(d, prefix + suf, styled_elem(r, 0));
+  }
+  return d;
+}
+
+// rows x cols; kind 0 list of lists, 1 list of dicts, 2 dict of lists, 3 dict of dicts
+static Node table(vf::Rng& r, size_t rows, size_t cols, int kind) {
+  bool outer_dict = kind >= 2, inner_dict = kind & 1;
+  Node t = outer_dict ? mk_dict() : mk_list();
+  int style = (int)r.below(3);  // 0 hetero, 1 ints, 2 floats
+  for (size_t i = 0; i < rows; i++) {
+    Node row = inner_dict ? mk_dict() : mk_list();
+    for (size_t j = 0; j < cols; j++) {
+      Node e = styled_elem(r, style);
+      if (inner_dict) dput(row, fmt("c%zu", j), std::move(e));
+      else row.kids.push_back(std::move(e));
+    }
+    if (outer_dict) dput(t, fmt("row%zu", i), std::move(row));
+    else t.kids.push_back(std::move(row));
+  }
+  return t;
+}
+
+// 0 every byte value (random); 1 printable ASCII; 2 escape-heavy; 3 one repeated byte (rotating); 4 mostly ASCII with rare specials
+static string long_string(vf::Rng& r, size_t len, int style) {
+  static const char special[] = {'"', '\\', '/', '\b', '\f', '\n', '\r', '\t', 0x00, 0x01, 0x1f, 0x7f, (char)0x80, (char)0xff};
+  string s;
+  s.reserve(len);
+  char rep = (char)r.next();
+  for (size_t i = 0; i < len; i++) {
+    switch (style) {
+      case 0: s.push_back((char)r.next()); break;
+      case 1: s.push_back((char)(0x20 + r.below(0x5f))); break;
+      case 2: s.push_back(special[r.below(sizeof(special))]); break;
+      case 3: s.push_back(rep); break;
+      default: s.push_back(r.chance(1, 64) ? (char)r.next() : (char)('a' + r.below(26))); break;
+    }
+  }
+  return s;
+}
+
+// a document whose text under option mask `o` is exactly `target` bytes long (when reachable): either dominated by one
+// pad string or by many small elements, the pad string doing the exact tuning
+static Node text_of_length(vf::Rng& r, size_t target, uint32_t o, bool element_dominated) {
+  auto len_of = [&](const Node& n) { return ser(build(n), o).size(); };
+  Node doc = mk_list();
+  if (target >= 96 && !element_dominated) {
+    doc.kids.push_back(mk_int(gen_int(r)));
+    doc.kids.push_back(mk_float(gen_float(r)));
+    Node d = mk_dict();
+    dput(d, gen_str(r), mk_null());
+    doc.kids.push_back(std::move(d));
+  }
+  doc.kids.push_back(mk_str(""));  // the pad, last
+  if (element_dominated && target >= 96) {
+    // per-element cost measured on the real serializer
+    Node two = doc;
+    two.kids.insert(two.kids.begin(), mk_int(7));
+    Node three = two;
+    three.kids.insert(three.kids.begin(), mk_int(7));
+    size_t l2 = len_of(two), l3 = len_of(three);
+    size_t per = l3 - l2;
+    size_t base = l2 - per;
+    size_t m = per ? (target - base - 8) / per : 0;
+    Node big = mk_list();
+    big.kids.reserve(m + 1);
+    for (size_t i = 0; i < m; i++) big.kids.push_back(mk_int((int64_t)r.below(10)));
+    big.kids.push_back(mk_str(""));
+    doc = std::move(big);
+  }
+  size_t base = len_of(doc);
+  if (base <= target) doc.kids.back().s = long_string(r, target - base, 1);
+  // pad characters must take one byte of text each: printable ASCII without quote / backslash
+  for (char& ch : doc.kids.back().s)
+    if (ch == '"' || ch == '\\') ch = '_';
+  return doc;
+}
+
+static Node gen_wide(vf::Rng& r, int depth, int maxdepth, int64_t& budget, int fanbits) {
+  budget--;
+  bool container = depth < maxdepth && budget > 0 && (depth == 0 || r.chance(3, 10));
+  if (!container) return styled_elem(r, (int)r.below(2) ? 0 : 1 + (int)r.below(5));
+  bool dict = r.chance(1, 2);
+  Node n = dict ? mk_dict() : mk_list();
+  size_t want = (size_t)r.below(((uint64_t)1 << r.below(fanbits + 1)) + 1);  // log-uniform fan-out, 0 allowed
+  int ks = (int)r.below(4);
+  for (size_t i = 0; i < want && budget > 0; i++) {
+    Node k = gen_wide(r, depth + 1, maxdepth, budget, fanbits);
+    if (dict) dput(n, wide_key(r, i, ks), std::move(k));
+    else n.kids.push_back(std::move(k));
+  }
+  return n;
+}
+
+static vector<SizeCase> size_cases(bool quick) {
+  vector<SizeCase> v;
+  auto add = [&](const string& fam, uint64_t size, uint64_t est, std::function<Node(vf::Rng&)> mk, int must = -1) {
+    v.push_back({fam, size, est, must, std::move(mk)});
+  };
+  // est: rough cost in "list elements" (a dict entry ~ 4, a random string byte ~ 1/8, an ASCII byte ~ 1/32)
+  const int KL = quick ? 16 : 19;   // lists up to 2^KL + 1
+  const int KD = quick ? 15 : 17;   // dicts up to 2^KD + 1
+  const int KS = quick ? 20 : 22;   // string / key bytes up to 2^KS + 1
+  const int KSR = quick ? 15 : 19;  // ... with every byte value / escape-heavy content
+  const int KT = quick ? 20 : 22;   // total text length
+  const int KTE = quick ? 16 : 20;  // ... element-dominated
+  const int KM = quick ? 12 : 30;   // 2^k - 1 up to here
+  const bool dense = !quick;
+  size_t z = 0;
+
+  // 1. wide flat lists, heterogeneous; at the exact powers of two also one homogeneous style (rotating)
+  for (size_t n : ladder(4, KL, KM, dense)) {
+    add("list", n, n, [n](vf::Rng& r) { return wide_list(r, n, 0); });
+    if ((n & (n - 1)) == 0 && (!quick || n <= 8192)) {
+      int style = 1 + (int)(z++ % 5);
+      add("list-homogeneous", n, n, [n, style](vf::Rng& r) { return wide_list(r, n, style); });
+    }
+  }
+  // 2. wide flat dicts, four key styles rotating, heterogeneous values
+  for (size_t n : ladder(4, KD, KM, dense)) {
+    if (quick && n > 8193 && (n & (n - 1)) != 0 && n != ((size_t)1 << KD) + 1) continue;  // quick: above 2^13 the exact powers and the top + 1
+    int ks = (int)(z++ % 4);
+    add("dict", n, 4 * n, [n, ks](vf::Rng& r) { return wide_dict(r, n, ks, 0); });
+  }
+  // 3. many keys sharing a long prefix
+  {
+    static const size_t plens[] = {15, 64, 255, 256, 1024, 4096, 65536};
+    for (int k = 4; k <= (quick ? 12 : 15); k++)
+      for (int d = 0; d <= 1; d++) {
+        size_t n = ((size_t)1 << k) + d;
+        for (int t = 0; t < (quick ? 1 : 2); t++) {
+          size_t pl = plens[z++ % 7];
+          while (pl * n > ((size_t)1 << (quick ? 17 : 21))) pl /= 2;
+          if (pl < 8) pl = 8;
+          int ss = (int)(z % 3);
+          add("dict-shared-prefix", n, 4 * n + n * pl / 8, [n, pl, ss](vf::Rng& r) { return prefix_dict(r, n, pl, ss); });
+        }
+      }
+  }
+  // 4. wide inside wide
+  for (int a : {10, 12, 14, 16, 18}) {
+    if (a > KL) continue;
+    size_t total = (size_t)1 << a;
+    int nth = 0;
+    for (size_t cols : {(size_t)3, (size_t)16, (size_t)200, (size_t)256, (size_t)4097, total / 3}) {
+      size_t rows = total / cols + 1;
+      nth++;
+      if (rows < 2) continue;
+      if (quick && a == 14 && (nth == 2 || nth == 4)) continue;
+      if (quick && a == 16 && nth != 2) continue;
+      add("table:list-of-lists", rows * cols, rows * cols, [rows, cols](vf::Rng& r) { return table(r, rows, cols, 0); });
+      int kind = 1 + (int)(z++ % 3);
+      static const char* kn[] = {"", "table:list-of-dicts", "table:dict-of-lists", "table:dict-of-dicts"};
+      if (a <= (quick ? 12 : 16) || (a == 14 && nth == 5))
+        add(kn[kind], rows * cols, 3 * rows * cols, [rows, cols, kind](vf::Rng& r) { return table(r, rows, cols, kind); });
+    }
+  }
+  // 5. a wide container at depth d of a chain.  serialize() copies the text once per level and FORMAT indents every line
+  //    by 2*d, so the work grows like n*d^2: that product is what is bounded.
+  for (int d : {1, 2, 7, 64, 200, 450}) {
+    uint64_t cap = (uint64_t)1 << (quick ? 23 : 26);
+    vector<size_t> ns = {17, 1025, 4097, ((size_t)1 << 15) + 1};
+    size_t top = 1;
+    while ((uint64_t)(2 * top + 1) * d * d <= cap && top < 4096) top *= 2;
+    if (d >= 64) ns.push_back(top + 1);  // the widest container this depth can afford
+    for (size_t n : ns) {
+      if ((uint64_t)n * d * d > cap) continue;
+      if (quick && n > 4097 && d != 2) continue;
+      int kind = (int)(z++ % 3);
+      bool dict = ((z / 3) & 1) && n <= 4097;
+      add(dict ? "wide-dict-at-depth" : "wide-list-at-depth", n, (dict ? 4 : 1) * n + (uint64_t)n * d * d / 128, [d, n, kind, dict](vf::Rng& r) {
+        return chain(d, kind, dict ? wide_dict(r, n, (int)r.below(4)) : wide_list(r, n));
+      });
+    }
+  }
+  // 6. a deep chain at index i of a wide list; and lists whose every element is a chain
+  for (size_t n : {(size_t)65, (size_t)4099, ((size_t)1 << 14) + 3, ((size_t)1 << 15) + 3})
+    for (int d : {10, 120, 450})
+      for (int pos = 0; pos < 3; pos++) {
+        bool one_pos = d == 450 || n > 4099 || (n == 4099 && d == 120 && quick);  // one position per (n, d), rotating
+        if (one_pos && pos != (int)(((n >> 12) + d / 10) % 3)) continue;
+        if (quick && ((n > 4099 && d == 450) || (n > 20000 && d != 10))) continue;
+        size_t at = pos == 0 ? 0 : pos == 1 ? n / 2 : n - 1;
+        int kind = (int)(z++ % 3);
+        add("chain-in-wide-list", n, n + (uint64_t)d * d * d / 2048, [n, d, at, kind](vf::Rng& r) {
+          Node l = wide_list(r, n);
+          l.kids[at] = chain(d, kind, mk_int(gen_int(r)));
+          return l;
+        });
+      }
+  for (size_t n : {(size_t)300, (size_t)4100})
+    add("list-of-chains", n, n * 4, [n](vf::Rng& r) {
+      Node l = mk_list();
+      for (size_t i = 0; i < n; i++) l.kids.push_back(chain(3, (int)(i % 3), hetero_elem(r)));
+      return l;
+    });
+  // 7. long strings and long keys.  Content styles: 0 every byte value, 1 printable ASCII, 2 escape-heavy, 3 one repeated byte,
+  //    4 mostly ASCII with rare specials; the expensive styles (one printf per byte inside phosg) stop at 2^KSR.
+  for (size_t len : ladder(4, KS, KM, dense)) {
+    bool big = len > ((size_t)1 << KSR) + 1;
+    if (quick && big && (len & (len - 1)) != 0 && ((len - 1) & (len - 2)) != 0) continue;  // quick: 2^k and 2^k+1 only up there
+    static const int cheap[] = {1, 4, 1, 4};
+    int style = big ? cheap[z % 4] : (int)(z % 5);
+    z++;
+    uint64_t est = (style == 1 || style == 4) ? len / 32 : len / 8;
+    bool root = !big || (z & 1);
+    bool kv = !big || !(z & 1);
+    if (root) add("string:root", len, est, [len, style](vf::Rng& r) { return mk_str(long_string(r, len, style)); });
+    int style2 = big ? cheap[(z + 1) % 4] : (int)(z % 5);
+    if (kv)
+      add("string:key-and-value", len, 2 * est, [len, style, style2](vf::Rng& r) {
+        Node d = mk_dict();
+        Node l = mk_list();
+        l.kids.push_back(mk_str("a"));
+        l.kids.push_back(mk_str(long_string(r, len, style2)));
+        l.kids.push_back(mk_int(1));
+        dput(d, long_string(r, len, style), std::move(l));
+        dput(d, "z", mk_null());
+        return d;
+      });
+  }
+  // 8. total text length 2^k-1, 2^k, 2^k+1 under a rotating option mask
+  {
+    static const uint32_t tune[] = {0, JSON::FORMAT, JSON::HEX_INTEGERS, JSON::FORMAT | JSON::SORT_DICT_KEYS, JSON::ESCAPE_CONTROLS_ONLY,
+        JSON::ONE_CHARACTER_TRIVIAL_CONSTANTS | JSON::FORMAT, JSON::SORT_DICT_KEYS, JSON::HEX_ESCAPE_CODES};
+    for (int k = 4; k <= KT; k++)
+      for (int d = -1; d <= 1; d++) {
+        size_t target = ((size_t)1 << k) + d;
+        uint32_t o = tune[z++ % 8];
+        add("textlen:pad", target, target / 32, [target, o](vf::Rng& r) { return text_of_length(r, target, o, false); }, (int)o);
+        if (k >= 7 && k <= KTE && !(quick && k > 13 && d < 0)) {
+          uint32_t o2 = tune[z++ % 8];
+          add("textlen:elements", target, target / 3, [target, o2](vf::Rng& r) { return text_of_length(r, target, o2, true); }, (int)o2);
+        }
+      }
+  }
+  // 9. nesting depth ladder (the unchanged parser is recursive: stay at or below 500 levels, as C05 does)
+  {
+    vector<int> depths;
+    for (int d = 1; d <= 17; d++) depths.push_back(d);
+    for (int d : {31, 32, 33, 63, 64, 65, 100, 127, 128, 129, 200, 255, 256, 257, 300, 400, 499, 500}) depths.push_back(d);
+    if (!quick)
+      for (int d : {150, 199, 250, 350, 450}) depths.push_back(d);
+    for (int d : depths)
+      for (int kind = 0; kind < 3; kind++) {
+        bool all_kinds = d <= 33 || d == 64 || d == 128 || d == 256 || !quick;
+        if (d == 500 && kind != 1) all_kinds = true;  // quick: 500 as list and alternating chain, 499 as dict chain
+        if (!all_kinds && kind != d % 3) continue;
+        int leaf = (int)(z++ % 4);
+        add("depth", d, d + (uint64_t)d * d * d / 2048, [d, kind, leaf](vf::Rng& r) {
+          Node lf = leaf == 0 ? mk_int(gen_int(r)) : leaf == 1 ? (kind == 1 ? mk_dict() : mk_list()) : leaf == 2 ? mk_float(gen_float(r)) : mk_str(gen_str(r));
+          return chain(d, kind, std::move(lf));
+        });
+      }
+  }
+  // 10. seeded random trees with log-uniform fan-out and node budgets between the ladder points
+  {
+    size_t count = quick ? 48 : 600;
+    int nb = quick ? 8 : 10;
+    for (size_t i = 0; i < count; i++) {
+      int bits = 6 + (int)(i % nb);  // node budget below 2^bits
+      add("random-wide", (uint64_t)1 << bits, (uint64_t)2 << bits, [bits](vf::Rng& r) {
+        int64_t budget = (int64_t)(((uint64_t)1 << (bits - 1)) + r.below((uint64_t)1 << (bits - 1)));
+        return gen_wide(r, 0, 1 + (int)r.below(5), budget, bits);
+      });
+    }
+  }
+  return v;
+}
+
+static size_t total_bytes(const Node& n) {
+  size_t t = n.s.size();
+  for (auto& k : n.keys) t += k.size();
+  for (auto& k : n.kids) t += total_bytes(k);
+  return t;
+}
+
+static size_t max_breadth(const Node& n) {
+  size_t t = n.kids.size();
+  for (auto& k : n.kids) t = max(t, max_breadth(k));
+  return t;
+}
+
+static void run_sizes(vf::Ctx& c, uint64_t& idx) {
+  vector<SizeCase> cases = size_cases(c.quick());
+  string only_family = c.arg("family", "");  // debugging aid: run one family only
+  bool timing = c.arg("timing", "0") != "0";  // debugging aid: per-case CPU time on stderr (never used as a bound)
+  uint64_t w0 = strtoull(c.arg("w0", c.quick() ? "128" : "512").c_str(), nullptr, 0);
+  // deterministic balance: every shard computes the same greedy assignment from the estimated weights
+  vector<uint64_t> load(c.nshards, 0);
+  uint64_t n_cases = 0, n_nodes = 0, n_bytes = 0, widest = 0, longest_text = 0;
+  for (auto& sc : cases) {
+    uint64_t i = idx++;
+    unsigned best = 0;
+    for (unsigned s = 1; s < c.nshards; s++)
+      if (load[s] < load[best]) best = s;
+    uint64_t cost = sc.est <= w0 ? sc.est * 64 : std::max<uint64_t>(sc.est * 6, w0 * 64);  // 3 masks + per-tree monitors
+    load[best] += cost + 2000;
+    if (best != c.shard) continue;
+    if (!only_family.empty() && sc.family.compare(0, only_family.size(), only_family) != 0) continue;
+    clock_t t0 = clock();
+    vf::Rng r(c.seed * 0x9E3779B1ULL + i * 0x2545F491ULL + 4242);
+    c.crumb_s(fmt("building size case #%" PRIu64 " family=%s size=%" PRIu64, i, sc.family.c_str(), sc.size));
+    Node n = sc.make(r);
+    size_t nodes = count_nodes(n), bytes = total_bytes(n);
+    size_t fl = ser(build(n), JSON::FORMAT).size();
+    uint64_t weight = std::max<uint64_t>(nodes + bytes / 8, fl / 8);
+    Plan plan = sized_plan(i, weight, w0, sc.must_opt, sc.family);
+    process(i, n, r, ("size family " + sc.family + fmt(" size=%" PRIu64, sc.size)).c_str(), plan);
+    c.cls(fmt("size:%s:2^%d", sc.family.c_str(), log2_floor(sc.size)));
+    c.cls(fmt("size:masks:%s", plan.opts.size() == 64 ? "all64" : "rotating-subset"));
+    if (sc.must_opt >= 0) c.cls(ser(build(n), (uint32_t)sc.must_opt).size() == sc.size ? "size:textlen:exact" : "size:textlen:inexact");
+    if (timing) fprintf(stderr, "[timing] %s size=%" PRIu64 " nodes=%zu bytes=%zu fmt_text=%zu masks=%zu cpu_ms=%ld\n", sc.family.c_str(), sc.size, nodes, bytes, fl, plan.opts.size(), (long)((clock() - t0) * 1000 / CLOCKS_PER_SEC));
+    n_cases++;
+    n_nodes += nodes;
+    n_bytes += bytes;
+    widest = std::max<uint64_t>(widest, max_breadth(n));
+    longest_text = std::max<uint64_t>(longest_text, fl);
+  }
+  c.count("size_cases", n_cases);
+  c.count("size_cases_nodes", n_nodes);
+  c.count("size_cases_string_bytes", n_bytes);
+  c.count(fmt("size_widest_container_shard%02u", c.shard), widest);
+  c.count(fmt("size_longest_text_shard%02u", c.shard), longest_text);
 }
 
 int main(int argc, char** argv) {
@@ -919,7 +1561,7 @@ int main(int argc, char** argv) {
     uint64_t i = idx++;
     if (!c.mine(i)) continue;
     vf::Rng r(c.seed * 7919 + i);
-    process(i, n, r, "systematic");
+    process(i, n, r, "systematic", full_plan());
   }
   c.count("systematic_trees", c.shard == 0 ? sys.size() : 0);
   uint64_t ntrees = strtoull(c.arg("trees", c.quick() ? "2000" : "100000").c_str(), nullptr, 0);
@@ -932,9 +1574,10 @@ int main(int argc, char** argv) {
     int maxdepth = 1 + (int)r.below(6);
     Node n = gen_tree(r, 0, maxdepth, budget);
     nodes += count_nodes(n);
-    process(i, n, r, "random");
+    process(i, n, r, "random", full_plan());
   }
   c.count("random_trees_nodes", nodes);
+  if (c.arg("sizes", "1") != "0") run_sizes(c, idx);
   if (dumpf) fclose(dumpf);
   return c.finish();
 }
